@@ -202,7 +202,7 @@ def run_C10(ctx):
     res2 = ctx.vh_isolated("c10-replay", r2.out, chunk=400, timeout=120, sig_prefix="c10")
     ctx.absorb(res2, "G:c10-replay(cycles)")
     # beyond the length bound: random behaviours of the same specification (documents of up to 12 tokens)
-    rsim = ctx.tlc("MC_C10", cfg="MC_C10_sim.cfg", simulate=40 if ctx.quick else 2000, depth=13, seed=ctx.seed, label="MC_C10(simulate)", timeout=3300)
+    rsim = ctx.tlc("MC_C10", cfg="MC_C10_sim.cfg", simulate=40 if ctx.quick else 400, depth=13, seed=ctx.seed, label="MC_C10(simulate)", timeout=3300)
     ressim = ctx.vh_isolated("c10-replay", rsim.out, chunk=4000, timeout=900, sig_prefix="c10")
     ctx.absorb(ressim, "G:c10-replay(simulated documents of up to 12 tokens)")
     # nesting shapes: a leaf macro pasted from a middle and a top macro, on the top level of their bodies and among the children
